@@ -343,7 +343,7 @@ pub fn run(ctx: &Ctx) -> Report {
          (clean/persistent x session present or not, v5 Session Expiry in CONNECT and overridden in CONNACK), client and server roles, both versions, smaller Maximum Packet Size on resume; model = ordered list of accepted, unacknowledged messages. \
          non-trivial = a QoS>0 publish was accepted in a persistent session and the history has a non-matching ack, a resume with non-empty store or a publish while not connected",
     );
-    let n = ctx.tier.pick(150_000, 2_000_000);
+    let n = ctx.tier.pick(400_000, 2_000_000);
     let (st, v) = search(ctx, "c06.history", n, strategy, test);
     rep.absorb("histories", st, v, false);
     rep.assumptions.push("session persistence is derived from the CONNECT/CONNACK contents as in DESIGN.md appendix D; known finding D23 (CONNACK session present + Session Expiry 0) is excluded by construction and reported from its witness replay".into());
